@@ -145,8 +145,12 @@ def body(c, ctx):
     # parameter passing modes are interchangeable (bit for bit)
     if gi.uses(tree, 'param') and fm != 'scalar':
         mats = {mode: BilinearForm(form2, dtype=dtype).assemble(ub, vb, **fkw(mode)).toarray() for mode in ('vector', 'field', 'array')}
-        if not (np.array_equal(mats['vector'], mats['field']) and np.array_equal(mats['field'], mats['array'])):
-            ctx.fail('param_modes', 'coefficient passed as vector / interpolated field / raw array gives different matrices', **sig)
+        # equal up to the rounding of a different summation order (a raw C-ordered array and the interpolated field
+        # differ in memory layout, hence in NumPy's pairwise summation): 1e-13 of the absolute-value scale, not bit for bit
+        am = 1e-13 * (1.0 + float(abs(Aabs).max()))
+        if not (np.allclose(mats['vector'], mats['field'], rtol=0, atol=am) and np.allclose(mats['field'], mats['array'], rtol=0, atol=am)):
+            ctx.fail('param_modes', 'coefficient passed as vector / interpolated field / raw array gives different matrices: '
+                     f'{np.abs(mats["vector"] - mats["field"]).max():.3e} / {np.abs(mats["field"] - mats["array"]).max():.3e}', **sig)
     # threaded kernel equals serial kernel (exactly)
     if c['nthreads']:
         A0 = BilinearForm(form2, dtype=dtype).assemble(ub, vb, **fkw(fm))
@@ -173,7 +177,7 @@ PROP = Prop(
           '(delivered fields value/grad/div/curl/hess, arbitrary component contractions, coefficients const/complex/x-monomial/'
           'h/n/parameter) x parameter mode (vector/field/array/scalar) x nthreads x random coefficient vectors. Oracle: '
           'v^T A u == J(u_h, v_h) == b(u_h)^T v, A u == b(u_h), sum of elemental == J, COOData == matrix, one entry A[i,j] == '
-          'a(phi_j, phi_i), parameter modes bit-identical, threaded == serial. Non-trivial: trial != test, or non-symmetric '
+          'a(phi_j, phi_i), parameter modes equal (1e-13), threaded == serial. Non-trivial: trial != test, or non-symmetric '
           'tree, or non-default basis kind'),
     assumptions=['facet bases are skipped for prisms and ElementTriN3 (raise by design)',
                  'local matrices larger than 1600 entries are rejected (cost bound, counted)',
